@@ -979,6 +979,7 @@ static Byte DecodeAdr(tStrComp const* pArg, Word Erl, tAdrResult* pResult) {
 
         pResult->Num  = ModImm;
         pResult->Mode = 0x3c;
+        ValOK         = True;
         switch (OpSize) {
         case eSymbolSize8Bit:
             pResult->Cnt = 2;
@@ -1087,6 +1088,10 @@ static Byte DecodeAdr(tStrComp const* pArg, Word Erl, tAdrResult* pResult) {
             break;
         default:
             break;
+        }
+        /* an immediate value that could not be evaluated is no operand at all: */
+        if (!ValOK) {
+            ClrAdrVals(pResult);
         }
         goto chk;
     }
